@@ -14,9 +14,10 @@ JSON_ALPHA = [b'"', b",", b":", b"{", b"]", b"0", b"7", b"-", b"e", b".", b" ", 
 KINDS = ["graph", "divisor", "firingscript", "orientation"]
 def gen(rng, tier):
     out = []
-    for i in range(28 if tier == "quick" else 400):
-        n = rng.choice([0, 1, 2, 3, 3, 4, 5]); names = sorted(rng.choice(NAMES)[:n])
-        edges = [[a, b, rng.choice([1, 1, 2, 13])] for a in range(n) for b in range(a + 1, n) if rng.random() < 0.6]
+    for i in range(2 * len(NAMES) if tier == "quick" else 400):
+        n = rng.choice([0, 1, 2, 3, 3, 4, 5]) if i >= 2 * len(NAMES) or i % 2 else rng.choice([3, 4, 5])
+        names = sorted(NAMES[i % len(NAMES)][:n])       # every name style is used, with >= 3 vertices at least once
+        edges = [[a, b, rng.choice([1, 1, 2, 13])] for a in range(n) for b in range(a + 1, n) if rng.random() < 0.6 or names[a].lower() == names[b].lower()]
         G = {"n": n, "names": names, "edges": edges}; kind = KINDS[i % 4]
         D = [rng.choice([0, 1, -1, 5, -12, 2 ** 70, -2 ** 64]) for _ in range(n)]
         ori = [[a, b] if rng.random() < 0.5 else [b, a] for a, b, _ in edges if rng.random() < 0.7]
